@@ -126,6 +126,9 @@ def _real_accessor(doc, acc, kind, strict, meter):
         return ("default" if (isinstance(res, PDFStream) and res.attrs == {} and res.rawdata == b"") else "value"), oc
     if acc == "resolve1":
         return "value", oc
+    if acc == "uint_value":
+        # the default is derived from int_value's 0: 2**n_bits before a61ed62 (which keeps 0 as 0), 0 after it
+        return ("default" if (res in (0, 256) and type(res) is int) else "value"), oc
     same = res == defaults[acc] and type(res) is type(defaults[acc])
     return ("default" if same else "value"), oc
 
